@@ -4,6 +4,7 @@ writes <scr>/race.json (evidence fragment) and, on a data race or a result
 mismatch, <scr>/race-violation.json (replay file)."""
 import json, sys, os
 scr, rc, seed, frm, n = sys.argv[1], int(sys.argv[2]), int(sys.argv[3]), int(sys.argv[4]), int(sys.argv[5])
+prop = sys.argv[6] if len(sys.argv) > 6 else "C18"
 raw = {}
 try:
     raw = json.load(open(os.path.join(scr, "race.raw.json")))
@@ -14,6 +15,6 @@ raw.update({"exit_code": rc, "data_race_reported": rc == 66, "seed": seed, "from
             "kind": "real execution under the Go race detector (not simulation)"})
 json.dump({"race_part": raw}, open(os.path.join(scr, "race.json"), "w"))
 if rc in (66, 3):
-    json.dump({"property": "C18", "class": "C18/data-race" if rc == 66 else "C18/result-differs-in-parallel",
+    json.dump({"property": prop, "class": prop + "/data-race" if rc == 66 else prop + "/result-differs-in-parallel",
                "race_part": {"seed": seed, "from": frm, "n": n}, "log_tail": log[-6000:]},
               open(os.path.join(scr, "race-violation.json"), "w"), indent=1)
